@@ -141,6 +141,10 @@ def bundled_sessions(seed, limit):
     return out
 
 
+class BuildMismatch(Exception):
+    pass
+
+
 def materialise(src):
     """source descriptor -> [(key, real object)]"""
     if src["source"] == "pool":
@@ -149,8 +153,12 @@ def materialise(src):
             o = L.build(x, src["route"] + i)
             back = L.abstract(o)
             if canon(back) != canon(x):
-                raise tlc.MachineryError("the real object built for a TLC pool object does not abstract back to it: "
-                                         + "; ".join(L.explain(x, back)[:4]))
+                # connect() is only one of the public ways to add a bond; what C01 needs is the object itself
+                o = L.build(x, src["route"] + i, bonds_by="append")
+                back = L.abstract(o)
+            if canon(back) != canon(x):
+                raise BuildMismatch("the public constructors do not build the object the specification enumerated: "
+                                    + "; ".join(L.explain(x, back)[:4]))
             items.append((L.KEYS[i % len(L.KEYS)], o))
         return items
     if src["source"] == "gen":
@@ -202,25 +210,50 @@ def legacy_records(src, items, rnd):
 
 
 def run_sessions(sources, seed, mutate=None):
+    """-> traces, meta, number of real calls, problems.  An exception of the code under test while an input is built
+    or a session is run (a constructor that raises, a hang) is a problem of THAT session, reported as a violation
+    with a replay file; only failures of the machinery itself (TLC, the harness) abort the run with exit 2."""
     lab = L.LibLab()
-    traces, meta = [], {}
+    traces, meta, problems = [], {}, []
     try:
         for i, src in enumerate(sources):
             rnd = random.Random(f"{seed}/session/{src.get('sid', i)}")
-            before = None
-            if "before" in src:
-                b = {**src, **src["before"]}
-                before = (b["ver"],) + legacy_records(b, materialise(b), rnd)
-            items, legacy = legacy_records(src, materialise(src), rnd)
-            ev = lab.session(src["kind"], src["ver"], items, rnd, mutate=mutate, legacy=legacy, before=before,
-                             fresh=bool(src.get("fresh")))
+            try:
+                before = None
+                if "before" in src:
+                    b = {**src, **src["before"]}
+                    before = (b["ver"],) + legacy_records(b, materialise(b), rnd)
+                items, legacy = legacy_records(src, materialise(src), rnd)
+                ev = lab.session(src["kind"], src["ver"], items, rnd, mutate=mutate, legacy=legacy, before=before,
+                                 fresh=bool(src.get("fresh")))
+            except tlc.MachineryError:
+                raise
+            except Exception as e:
+                import traceback
+                where = traceback.extract_tb(e.__traceback__)[-1]
+                problems.append({"source": src, "error": f"{type(e).__name__}: {e}"[:400],
+                                 "where": f"{where.filename}:{where.lineno}"})
+                continue
             tid = f"t{src.get('sid', i)}-{src['source']}-{src['kind']}-v{src['ver']}" + ("-reuse" if before else "")
             traces.append({"tid": tid, "ev": ev})
             meta[tid] = src
         lab.finish_fresh()
     finally:
         lab.cleanup()
-    return traces, meta, lab.calls
+    return traces, meta, lab.calls, problems
+
+
+def report_problems(rep, problems, tier, seed):
+    seen = set()
+    for pr in problems:
+        sig = (pr["source"]["kind"], pr["source"]["ver"], pr["error"].split(":")[0], pr["where"])
+        if sig in seen or len(seen) >= 6:
+            continue
+        seen.add(sig)
+        rep.violation("lib-session", {"tier": tier, "seed": seed, "source": pr["source"], "error": pr["error"],
+                                      "where": pr["where"]},
+                      what=f"session {pr['source'].get('sid')} ({pr['source']['source']}, {pr['source']['kind']}, "
+                           f"v{pr['source']['ver']}) could not be carried out: {pr['error']}"[:500])
 
 
 # ------------------------------------------------------------------------------------------------ verdict handling
@@ -344,7 +377,8 @@ def run(tier, seed, replay_path):
         for i, s in enumerate(sources):
             s["sid"] = i
         t1 = time.time()
-        traces, meta, calls = run_sessions(sources, seed)
+        traces, meta, calls, problems = run_sessions(sources, seed)
+        report_problems(rep, problems, tier, seed)
         rep.note(f"{len(sources)} real library files ({n_pool} from the TLC pool), {calls} put/get calls  [{time.time() - t1:.0f}s]")
         devs = dict(f.result() for f in bg[1:])
         bg[0].result()
@@ -374,7 +408,7 @@ def run(tier, seed, replay_path):
            sessions={"pool": n_pool, "generated": sum(s["source"] == "gen" for s in sources),
                      "path_reused": sum("before" in s for s in sources),
                      "bundled": sum(s["source"].startswith("bundled") for s in sources)},
-           pool_objects=len(pool), rejected_traces=len(bad),
+           pool_objects=len(pool), rejected_traces=len(bad), sessions_not_carried_out=len(problems),
            rejected_signatures={" ".join(map(str, k)): v for k, v in seen.items()}, exhaustive=False)
     acc = [t for t in traces if verdicts[t["tid"]][0] == "ACCEPT"]
     ev.add_samples([[{k: (v if k != "x" else {"kind": v["kind"], "name": v["name"], "natoms": len(v["atoms"]),
@@ -396,7 +430,11 @@ def run(tier, seed, replay_path):
 
 def do_replay(path):
     doc = json.loads(open(path).read())
-    traces, meta, _ = run_sessions([doc["source"]], doc["seed"])
+    traces, meta, _, problems = run_sessions([doc["source"]], doc["seed"])
+    if problems:
+        print(json.dumps({"error": problems[0]["error"], "where": problems[0]["where"]}, indent=1))
+        print(f"VIOLATION property={PROP} replay={path}")
+        return 1
     verdicts, _ = T.validate("LibCodecTrace", traces, TRACE_CFG, tag="c01rp")
     (tid, v), = verdicts.items()
     out = {"verdict": v}
